@@ -178,7 +178,7 @@ Definition dec_val (k : rkey) (v : rval) : Z :=
   match k with K0 _ => w_param (fst v) | K1 _ => snd v + w_param (fst v) * 4294967296 end.
 
 Lemma zkey_inj k k' : key_ok k -> key_ok k' -> zkey k = zkey k' -> k = k'.
-Proof. destruct k, k'; cbn; intros; try lia; f_equal; lia. Qed.
+Proof. destruct k, k'; unfold zkey, key_ok; intros; try (exfalso; lia); f_equal; lia. Qed.
 
 Section Invariant.
   Variable d0 d1 : Z -> bool.
@@ -220,7 +220,7 @@ Section Invariant.
     assert (Hsame : changed = false -> rset (zkey k) (dec_val k v) r = r).
     { intros ->. destruct (rm_get k m) as [old|] eqn:Hg; [|discriminate].
       apply negb_false_iff in Hch. apply rval_eqb_eq in Hch. subst old.
-      apply rset_same. destruct (Hb k v) as (_ & _ & H); [rewrite Hcur; exact Hg|exact H]. }
+      apply rset_same. destruct (Hb k v) as (_ & _ & H); [exact Hg|exact H]. }
     split; [|exact Hsame].
     (* the updated machine *)
     assert (Hnew : bank_inv (sel k) rm (rset (zkey k) (dec_val k v) r)).
@@ -231,7 +231,7 @@ Section Invariant.
         + rewrite rm_get_put_eq. intros H. injection H as <-.
           split; [exact Hk|]. split; [reflexivity|]. apply rfind_rset_eq.
         + rewrite rm_get_put_neq by exact Hne. intros H.
-          destruct (Hb k' v') as (Hk' & Hs' & Hf'); [rewrite Hcur; exact H|].
+          destruct (Hb k' v') as (Hk' & Hs' & Hf'); [exact H|].
           split; [exact Hk'|]. split; [exact Hs'|].
           rewrite rfind_rset_neq; [exact Hf'|].
           intros Heq. apply Hne. apply zkey_inj; assumption. }
@@ -254,7 +254,8 @@ Section Invariant.
   Lemma switch_bank_inv b rm r : bank_inv b rm r -> bank_inv b (switch_bank rm) r.
   Proof.
     intros (Hi & Hm & Hf). unfold switch_bank, bank_inv, cur_bank in *. cbn [rm_idx rm_banks].
-    rewrite Hi in *. change ((0 + 1) mod n_banks) with 0. repeat split; auto.
+    rewrite Hi in *. change ((0 + 1) mod n_banks) with 0.
+    split; [reflexivity|]. split; [exact Hm|]. exact Hf.
   Qed.
 
   Lemma inv_switch s r b : inv s r -> inv (upd_machine s b (switch_bank (sel_machine s b))) r.
@@ -491,7 +492,7 @@ Example elision_example :
              Cmd0 cmd0_NPU_SET_IFM_REGION 1; Cmd0 cmd0_NPU_SET_IFM_REGION (65536 + 1);
              Cmd1Address cmd1_NPU_SET_IFM_BASE0 (5 * 4294967296 + 64);
              Wait cmd0_NPU_OP_DMA_WAIT 0 0; DoOp cmd0_NPU_OP_DMA_START 0; DoOp cmd0_NPU_OP_STOP 65535] in
-  Forall call_ok cs /\ List.length (emitted cs) = 8%nat /\ List.length (emitted_plain cs) = 13%nat /\
+  Forall call_ok cs /\ List.length (emitted cs) = 8%nat /\ List.length (emitted_plain cs) = 12%nat /\
   run_stream (emitted cs) = Some (ref_events [] cs).
 Proof.
   cbv zeta. split; [|split; [|split]].
@@ -500,3 +501,248 @@ Proof.
   - vm_compute. reflexivity.
   - vm_compute. reflexivity.
 Qed.
+
+(* ------------------------------------------------------------------ no_truncation *)
+Lemma mask16_id_iff p : Z.land p 65535 = p <-> 0 <= p < 65536.
+Proof.
+  rewrite land16. split; intros H.
+  - rewrite <- H. apply mod16_range.
+  - apply Z.mod_small. exact H.
+Qed.
+
+Lemma mask32_id_iff p : Z.land p 4294967295 = p <-> 0 <= p < 4294967296.
+Proof.
+  rewrite land32. split; intros H.
+  - rewrite <- H. apply mod32_range.
+  - apply Z.mod_small. exact H.
+Qed.
+
+(* signed fields (zero points, activation clamps, scalar): the 16-bit two's complement view *)
+Lemma s16_mask_id_iff p : s16 (Z.land p 65535) = p <-> -32768 <= p < 32768.
+Proof.
+  rewrite land16. unfold s16. pose proof (mod16_range p) as Hr.
+  destruct (Z.ltb_spec (p mod 65536) 32768); split; intros H0; Z.div_mod_to_equations; lia.
+Qed.
+
+(* cmd1_with_address: 32 payload bits + 16 parameter bits *)
+Lemma addr48_id_iff a : addr_lo a + addr_hi a * 4294967296 = a <-> 0 <= a < 281474976710656.
+Proof.
+  unfold addr_lo, addr_hi. rewrite land16, land32, shiftr32.
+  split; intros H; Z.div_mod_to_equations; lia.
+Qed.
+
+Lemma write_of_masks :
+  (forall code p, write_of (Cmd0 code p) = Some (code, Z.land p 65535)) /\
+  (forall code off p, write_of (Cmd1Offset code off p) =
+                      Some (1024 + code, Z.land off 4294967295 + Z.land p 65535 * 4294967296)) /\
+  (forall code a, write_of (Cmd1Address code a) = Some (1024 + code, addr_lo a + addr_hi a * 4294967296)).
+Proof.
+  repeat split; intros; cbn [write_of]; unfold addr_lo, addr_hi; rewrite ?land16, ?land32, ?shiftr32; reflexivity.
+Qed.
+
+Lemma no_truncation_lemma :
+  (forall code p, write_of (Cmd0 code p) = Some (code, p) <-> 0 <= p < 65536) /\
+  (forall code p, (exists v, write_of (Cmd0 code p) = Some (code, v) /\ s16 v = p) <-> -32768 <= p < 32768) /\
+  (forall code off p, 0 <= p < 65536 ->
+     (write_of (Cmd1Offset code off p) = Some (1024 + code, off + p * 4294967296) <-> 0 <= off < 4294967296)) /\
+  (forall code off p, 0 <= off < 4294967296 ->
+     (write_of (Cmd1Offset code off p) = Some (1024 + code, off + p * 4294967296) <-> 0 <= p < 65536)) /\
+  (forall code a, write_of (Cmd1Address code a) = Some (1024 + code, a) <-> 0 <= a < 281474976710656).
+Proof.
+  split; [|split; [|split; [|split]]].
+  - intros code p. cbn [write_of]. rewrite <- mask16_id_iff, land16. split; intros H.
+    + injection H as H. exact H.
+    + rewrite H. reflexivity.
+  - intros code p. rewrite <- s16_mask_id_iff, land16. cbn [write_of]. split.
+    + intros (v & H & Hs). injection H as <-. exact Hs.
+    + intros H. exists (p mod 65536). split; [reflexivity|exact H].
+  - intros code off p Hp. cbn [write_of]. rewrite (Z.mod_small p) by exact Hp. split; intros H.
+    + injection H as H. pose proof (mod32_range off). lia.
+    + rewrite (Z.mod_small off) by exact H. reflexivity.
+  - intros code off p Ho. cbn [write_of]. rewrite (Z.mod_small off) by exact Ho. split; intros H.
+    + injection H as H. pose proof (mod16_range p). lia.
+    + rewrite (Z.mod_small p) by exact H. reflexivity.
+  - intros code a. rewrite <- addr48_id_iff. destruct write_of_masks as (_ & _ & H3). rewrite H3. split; intros H.
+    + injection H as H. exact H.
+    + rewrite H. reflexivity.
+Qed.
+
+Example no_truncation_example :
+  write_of (Cmd0 cmd0_NPU_SET_OFM_HEIGHT_M1 69999) = Some (cmd0_NPU_SET_OFM_HEIGHT_M1, 4463) /\
+  write_of (Cmd0 cmd0_NPU_SET_OFM_HEIGHT_M1 65535) = Some (cmd0_NPU_SET_OFM_HEIGHT_M1, 65535).
+Proof. split; reflexivity. Qed.
+
+(* ------------------------------------------------------------------ finite sweeps *)
+Fixpoint zrange (lo : Z) (n : nat) : list Z :=
+  match n with O => [] | S n' => lo :: zrange (lo + 1) n' end.
+Lemma in_zrange x n : forall lo, lo <= x < lo + Z.of_nat n -> In x (zrange lo n).
+Proof.
+  induction n as [|n IH]; intros lo H; [cbn in H; lia|].
+  cbn [zrange]. destruct (Z.eq_dec x lo) as [->|Hne]; [now left|right].
+  apply IH. rewrite Nat2Z.inj_succ in H. lia.
+Qed.
+Lemma sweep (P : Z -> bool) lo n :
+  forallb P (zrange lo n) = true -> forall x, lo <= x < lo + Z.of_nat n -> P x = true.
+Proof. intros H x Hx. rewrite forallb_forall in H. apply H. apply in_zrange. exact Hx. Qed.
+
+Definition b2z (b : bool) : Z := if b then 1 else 0.
+
+(* KERNEL_STRIDE: strides 1..16 (one low bit + three extension bits each), dilation 1..2, traversal bit:
+   below 4096 and every sub-field reads back (k_stride_x / k_stride_y are hw/Npu.v's readers) *)
+Definition kstride_ok (sx sy dx dy : Z) (pk : bool) : bool :=
+  let f := kernel_stride_field sx sy dx dy pk in
+  (0 <=? f) && (f <? 4096) && (k_stride_x f =? sx) && (k_stride_y f =? sy) &&
+  ((f / 8) mod 2 =? dx - 1) && ((f / 16) mod 2 =? dy - 1) && ((f / 4) mod 2 =? b2z pk).
+
+Lemma kstride_sweep :
+  forallb (fun sx => forallb (fun sy => forallb (fun dx => forallb (fun dy =>
+     kstride_ok sx sy dx dy false && kstride_ok sx sy dx dy true) (zrange 1 2)) (zrange 1 2)) (zrange 1 16)) (zrange 1 16)
+  = true.
+Proof. vm_compute. reflexivity. Qed.
+
+Lemma kernel_stride_fits sx sy dx dy pk :
+  1 <= sx <= 16 -> 1 <= sy <= 16 -> 1 <= dx <= 2 -> 1 <= dy <= 2 ->
+  kstride_ok sx sy dx dy pk = true.
+Proof.
+  intros Hsx Hsy Hdx Hdy.
+  pose proof (sweep _ _ _ kstride_sweep sx ltac:(cbn; lia)) as H1. cbv beta in H1.
+  pose proof (sweep _ _ _ H1 sy ltac:(cbn; lia)) as H2. cbv beta in H2.
+  pose proof (sweep _ _ _ H2 dx ltac:(cbn; lia)) as H3. cbv beta in H3.
+  pose proof (sweep _ _ _ H3 dy ltac:(cbn; lia)) as H4. cbv beta in H4.
+  apply andb_prop in H4 as [Hf Ht]. destruct pk; assumption.
+Qed.
+
+(* a stride or dilation outside these limits corrupts a neighbouring field *)
+Example kernel_stride_dilation3_collides :
+  (kernel_stride_field 1 1 3 1 false / 16) mod 2 = 1.
+Proof. reflexivity. Qed.
+
+(* IFM/IFM2_PRECISION and OFM_PRECISION *)
+Definition bits_ok (bits : Z) : bool := (bits =? 8) || (bits =? 16) || (bits =? 32).
+Definition ifm_prec_ok (sg : bool) (bits : Z) (b16 : bool) (ots : Z) : bool :=
+  let f := ifm_precision_field sg bits b16 ots in
+  (0 <=? f) && (f <? 65536) && (f mod 2 =? b2z sg) && (prec_elem_ifm f =? bits / 8) &&
+  Bool.eqb (prec_b16 f) b16 && ((f / 256) mod 4 =? ots) && ((f / 4) mod 4 =? precision_of_bits bits).
+Definition ofm_prec_ok (sg : bool) (bits : Z) (gs b16 : bool) (rnd : Z) : bool :=
+  let f := ofm_precision_field sg bits gs b16 rnd in
+  (0 <=? f) && (f <? 65536) && (f mod 2 =? b2z sg) && (prec_elem_ofm f =? bits / 8) &&
+  Bool.eqb (prec_b16 f) b16 && ((f / 256) mod 2 =? b2z gs) && ((f / 16384) mod 4 =? rnd).
+
+Lemma precision_sweep :
+  forallb (fun sg => forallb (fun bits => forallb (fun b16 => forallb (fun x =>
+     ifm_prec_ok sg bits b16 x && ofm_prec_ok sg bits false b16 x && ofm_prec_ok sg bits true b16 x)
+     (zrange 0 3)) [false; true]) [8; 16; 32]) [false; true] = true.
+Proof. vm_compute. reflexivity. Qed.
+
+Lemma precision_fits sg bits gs b16 x :
+  bits_ok bits = true -> 0 <= x <= 2 ->
+  ifm_prec_ok sg bits b16 x = true /\ ofm_prec_ok sg bits gs b16 x = true.
+Proof.
+  intros Hb Hx. pose proof precision_sweep as H. rewrite forallb_forall in H.
+  specialize (H sg ltac:(destruct sg; cbn; auto)). rewrite forallb_forall in H.
+  assert (Hin : In bits [8; 16; 32]).
+  { unfold bits_ok in Hb. apply orb_prop in Hb as [Hb|Hb]; [apply orb_prop in Hb as [Hb|Hb]|];
+      apply Z.eqb_eq in Hb; subst; cbn; auto. }
+  specialize (H bits Hin). rewrite forallb_forall in H.
+  specialize (H b16 ltac:(destruct b16; cbn; auto)).
+  pose proof (sweep _ _ _ H x ltac:(cbn; lia)) as H4. cbv beta in H4.
+  apply andb_prop in H4 as [H4 H5]. apply andb_prop in H4 as [H4 H6].
+  split; [exact H4|destruct gs; assumption].
+Qed.
+
+(* ACTIVATION for a table lookup, IFM2_BROADCAST *)
+Lemma activation_lut_fits idx i32 :
+  0 <= idx < 8 ->
+  let f := activation_lut_field idx i32 in
+  0 <= f < 65536 /\ f mod 4096 = 16 + idx /\ f / 4096 = (if i32 then 3 else 0).
+Proof.
+  intros H. assert (Hin : In idx (zrange 0 8)) by (apply in_zrange; cbn; lia).
+  cbn in Hin. destruct i32; repeat (destruct Hin as [<-|Hin]; [vm_compute; repeat split; congruence|]);
+    destruct Hin.
+Qed.
+
+Lemma broadcast_fits rv sc bh bw bc :
+  let f := broadcast_field rv sc bh bw bc in
+  0 <= f < 256 /\ (f / 64) mod 2 = b2z rv /\ (f / 128) mod 2 = b2z sc /\
+  (sc = false -> f mod 2 = b2z bh /\ (f / 2) mod 2 = b2z bw /\ (f / 4) mod 2 = b2z bc).
+Proof.
+  destruct rv, sc, bh, bw, bc; vm_compute; repeat split; try congruence; intros; try discriminate.
+Qed.
+
+(* sizes: HEIGHT_M1 etc. of a dimension 1..65536; KERNEL_*_M1 of a dilated kernel *)
+Lemma m1_fits x : 1 <= x <= 65536 -> 0 <= x - 1 < 65536 /\ Z.land (x - 1) 65535 + 1 = x.
+Proof. intros H. split; [lia|]. rewrite (proj2 (mask16_id_iff (x - 1))); lia. Qed.
+
+Lemma kernel_size_fits dil size :
+  1 <= dil <= 2 -> 1 <= size <= 32768 ->
+  0 <= kernel_size_field dil size < 65536.
+Proof. intros Hd Hs. unfold kernel_size_field. nia. Qed.
+
+(* 40-bit addresses (and anything below 2^48) survive the split over payload word and parameter *)
+Lemma address_fits a :
+  0 <= a < 1099511627776 ->
+  addr_lo a + addr_hi a * 4294967296 = a /\ 0 <= addr_hi a < 256 /\ 0 <= addr_lo a < 4294967296.
+Proof.
+  intros H. split; [apply addr48_id_iff; lia|].
+  unfold addr_lo, addr_hi. rewrite land16, land32, shiftr32. split; Z.div_mod_to_equations; lia.
+Qed.
+
+(* zero points within the data type's range survive the 16-bit field (read signed or unsigned as the type is) *)
+Lemma zero_point_fits (sg : bool) bits zp :
+  bits_ok bits = true -> bits <= 16 ->
+  (if sg then - 2 ^ (bits - 1) <= zp < 2 ^ (bits - 1) else 0 <= zp < 2 ^ bits) ->
+  (if sg then s16 (Z.land zp 65535) = zp else Z.land zp 65535 = zp).
+Proof.
+  intros Hb H16 Hr. unfold bits_ok in Hb.
+  assert (Hbits : bits = 8 \/ bits = 16).
+  { apply orb_prop in Hb as [Hb|Hb]; [apply orb_prop in Hb as [Hb|Hb]|]; apply Z.eqb_eq in Hb; lia. }
+  destruct sg.
+  - apply s16_mask_id_iff. destruct Hbits as [-> | ->]; cbn in Hr; lia.
+  - apply mask16_id_iff. destruct Hbits as [-> | ->]; cbn in Hr; lia.
+Qed.
+
+(* default strides of a legal feature map are non-negative and fit the 40-bit cmd1_with_address range *)
+Lemma default_strides_fit b16 elem w d :
+  1 <= elem <= 4 -> 1 <= w <= 65536 -> 1 <= d <= 65536 ->
+  let '(sc, sy, sx) := default_strides b16 elem w d in
+  0 <= sc < 1099511627776 /\ 0 <= sy < 1099511627776 /\ 0 <= sx < 1099511627776.
+Proof.
+  intros He Hw Hd. unfold default_strides. destruct b16.
+  - assert (Hq : 1 <= (d + 15) / 16 <= 4096) by (Z.div_mod_to_equations; lia).
+    repeat split; nia.
+  - repeat split; nia.
+Qed.
+
+Lemma field_fits_lemma :
+  (forall x, 1 <= x <= 65536 -> 0 <= x - 1 < 65536 /\ Z.land (x - 1) 65535 + 1 = x) /\
+  (forall dil size, 1 <= dil <= 2 -> 1 <= size <= 32768 -> 0 <= kernel_size_field dil size < 65536) /\
+  (forall sx sy dx dy pk, 1 <= sx <= 16 -> 1 <= sy <= 16 -> 1 <= dx <= 2 -> 1 <= dy <= 2 ->
+     kstride_ok sx sy dx dy pk = true) /\
+  (forall sg bits gs b16 x, bits_ok bits = true -> 0 <= x <= 2 ->
+     ifm_prec_ok sg bits b16 x = true /\ ofm_prec_ok sg bits gs b16 x = true) /\
+  (forall idx i32, 0 <= idx < 8 ->
+     let f := activation_lut_field idx i32 in
+     0 <= f < 65536 /\ f mod 4096 = 16 + idx /\ f / 4096 = (if i32 then 3 else 0)) /\
+  (forall rv sc bh bw bc, 0 <= broadcast_field rv sc bh bw bc < 256) /\
+  (forall a, 0 <= a < 1099511627776 ->
+     addr_lo a + addr_hi a * 4294967296 = a /\ 0 <= addr_hi a < 256 /\ 0 <= addr_lo a < 4294967296) /\
+  (forall (sg : bool) bits zp, bits_ok bits = true -> bits <= 16 ->
+     (if sg then - 2 ^ (bits - 1) <= zp < 2 ^ (bits - 1) else 0 <= zp < 2 ^ bits) ->
+     (if sg then s16 (Z.land zp 65535) = zp else Z.land zp 65535 = zp)) /\
+  (forall b16 elem w d, 1 <= elem <= 4 -> 1 <= w <= 65536 -> 1 <= d <= 65536 ->
+     let '(sc, sy, sx) := default_strides b16 elem w d in
+     0 <= sc < 1099511627776 /\ 0 <= sy < 1099511627776 /\ 0 <= sx < 1099511627776).
+Proof.
+  repeat split.
+  all: try (intros; first [ apply m1_fits; assumption | apply kernel_size_fits; assumption
+                          | apply kernel_stride_fits; assumption | apply activation_lut_fits; assumption
+                          | apply zero_point_fits; assumption | apply default_strides_fit; assumption ]).
+  all: try (intros; eapply precision_fits; eassumption).
+  all: try (intros; apply (broadcast_fits rv sc bh bw bc)).
+  all: try (intros; apply address_fits; assumption).
+Qed.
+
+Example field_fits_example :
+  kernel_stride_field 2 1 1 1 true = 5 /\ ifm_precision_field true 16 true 0 = 69 /\
+  ofm_precision_field false 8 true false 2 = 33024 /\ kernel_size_field 2 3 = 4.
+Proof. repeat split; reflexivity. Qed.
